@@ -1,6 +1,6 @@
 /* C side of the stubs: state of the String stub (stubs/SquidString.h) */
 #include <stddef.h>
-int cv_str_len; char cv_str_buf[4096]; int cv_str_assigned; int cv_str_assigned_len; char cv_str_assigned_g;
+int cv_str_len; char cv_str_buf[4096]; int cv_str_assigned; int cv_str_assigned_len; char cv_str_assigned_g; const char *cv_str_assigned_buf;
 extern size_t g;    /* the contract's ghost index */
 /* String::assign(buf, len): the real one copies len bytes from buf; the model records len and the byte at the ghost index */
 void cv_string_assign(const char *buf, int len)
@@ -8,5 +8,41 @@ void cv_string_assign(const char *buf, int len)
     __CPROVER_assert(len >= 0 && __CPROVER_r_ok(buf, (size_t)len), "String stub: assign(buf,len) gets len readable bytes");
     cv_str_assigned = 1;
     cv_str_assigned_len = len;
+    cv_str_assigned_buf = buf;
+#ifdef CV_MEMCPY_EXACT
     cv_str_assigned_g = (len > 0 && g < (size_t)len) ? buf[g] : 0;
+#endif
+}
+
+/* memcpy(dst, src, n): two ASSUMED models, chosen per target (CBMC flattens the 4 KB data.raw array: every access at a
+ * symbolic position costs a 4096-way multiplexer, and its byte-wise library memcpy did not finish).
+ * Both assert the two region preconditions -- these are the memory-safety obligations of getRaw/putRaw.
+ *
+ * RANGE model (default; the universal targets): records (dst, src, n) of the first two calls and does NOT move bytes.
+ *   One exception: an int-sized copy whose destination is outside the message object (getInt()'s local) stores an
+ *   ARBITRARY int there -- the received buffer's content is arbitrary, so is the int read from it -- and remembers it;
+ *   an int-sized copy from outside the message (putInt()'s local) remembers the int it would store.
+ *   The contract then states WHICH bytes each operation copies (addresses and counts); what copying means is memcpy's spec.
+ * EXACT model (-DCV_MEMCPY_EXACT; the round-trip targets at fixed positions): byte-wise copy, n <= 64. */
+extern const void *cv_msg_addr(void);
+int cv_mc_calls; const void *cv_mc_src[2]; void *cv_mc_dst[2]; size_t cv_mc_n[2]; int cv_mc_int[2];
+void *memcpy(void *dst, const void *src, size_t n)
+{
+    __CPROVER_assert(n == 0 || __CPROVER_r_ok(src, n), "memcpy: source region readable");
+    __CPROVER_assert(n == 0 || __CPROVER_w_ok(dst, n), "memcpy: destination region writeable");
+#ifdef CV_MEMCPY_EXACT
+    __CPROVER_assert(n <= 64, "memcpy (exact model): at most 64 bytes");
+    for (size_t i = 0; i < 64; i++)
+        if (i < n) ((char *)dst)[i] = ((const char *)src)[i];
+#else
+    if (cv_mc_calls < 2) {
+        cv_mc_src[cv_mc_calls] = src; cv_mc_dst[cv_mc_calls] = dst; cv_mc_n[cv_mc_calls] = n;
+        if (n == sizeof(int)) {
+            if (!__CPROVER_same_object(dst, cv_msg_addr())) { int received; *(int *)dst = received; cv_mc_int[cv_mc_calls] = received; }
+            else if (!__CPROVER_same_object(src, cv_msg_addr())) cv_mc_int[cv_mc_calls] = *(const int *)src;
+        }
+    }
+    cv_mc_calls++;
+#endif
+    return dst;
 }
